@@ -160,6 +160,7 @@ type simTicker struct {
 	ch      chan time.Time
 	gen     int
 	stopped bool
+	next    time.Time // bubble time of the next nominal tick
 }
 
 func (t *simTicker) arm(d time.Duration) {
@@ -185,7 +186,13 @@ func (t *simTicker) fire(gen int) {
 		t.mu.Unlock()
 		return
 	}
-	t.arm(t.d)
+	// like the runtime's tickers: the next tick keeps the phase the ticker was started with, whatever
+	// the delay of this one (ticks missed during a stall are dropped, not shifted)
+	now := time.Now()
+	for !t.next.After(now) {
+		t.next = t.next.Add(t.d)
+	}
+	t.arm(t.next.Sub(now))
 	t.mu.Unlock()
 	select {
 	case t.ch <- t.c.Now():
@@ -199,6 +206,7 @@ func (t *simTicker) Reset(d time.Duration) {
 	defer t.mu.Unlock()
 	t.t.Stop()
 	t.d = d
+	t.next = time.Now().Add(d)
 	t.arm(d)
 }
 func (t *simTicker) Stop() {
@@ -210,7 +218,7 @@ func (t *simTicker) Stop() {
 }
 
 func (c *SimClock) NewTicker(d time.Duration) clock.Ticker {
-	t := &simTicker{c: c, d: d, ch: make(chan time.Time, 1)}
+	t := &simTicker{c: c, d: d, ch: make(chan time.Time, 1), next: time.Now().Add(d)}
 	t.mu.Lock()
 	t.arm(d)
 	t.mu.Unlock()
